@@ -26,8 +26,8 @@ ASSUMPTIONS = [
     "which matched pair full_join forms beyond 'every left and right row at least once, never unequal keys' is not pinned (DESIGN 3.1)",
 ]
 BOUND = {
-    "quick": "one key: rows 0..3 a side over {NA,k1,k2} (40x40 pairs) for 8 key kinds x {same-name, renamed} x 5 joins; two keys: rows 0..2 a side over {NA,lo,hi}^2 (91x91 pairs) for 4 kind pairs x 5 joins",
-    "thorough": "one key: rows 0..3 a side over {NA,k1,k2,k3} (85x85 pairs) and rows 0..4 over {NA,k1,k2} (121x121) for 9 key kinds x {same-name, renamed} x 5 joins; two keys: rows 0..2 a side for 8 kind pairs",
+    "quick": "one key: rows 0..3 a side over {NA,k1,k2} (40x40 pairs) for 9 key kinds x {same-name, renamed} x 5 joins; two keys: rows 0..2 a side over {NA,lo,hi}^2 (91x91 pairs) for 4 kind pairs x 5 joins",
+    "thorough": "one key: rows 0..3 a side over {NA,k1,k2,k3} (85x85 pairs) and rows 0..4 over {NA,k1,k2} (121x121) for 10 key kinds x {same-name, renamed} x 5 joins; two keys: rows 0..2 a side for 8 kind pairs",
 }
 TIME_CAP = {"quick": 300, "thorough": 3000}
 
@@ -42,9 +42,10 @@ KEY_ALPHA = {
     "D": [None, "1970-01-01", "2020-02-29", "1969-12-31"],
     "us": [None, "1970-01-01T00:00:00", "2020-02-29T23:59:59.999999", "1969-12-31T23:59:59"],
     "obj": [None, 1, 2, 3],
+    "td": [None, "1", "3", "-2"],
 }
-KINDS_Q = ["f8", "i8", "b1", "str", "U", "D", "us", "obj"]
-KINDS_T = ["f8", "f8z", "i8", "b1", "str", "U", "D", "us", "obj"]
+KINDS_Q = ["f8", "i8", "b1", "str", "U", "D", "us", "td", "obj"]
+KINDS_T = ["f8", "f8z", "i8", "b1", "str", "U", "D", "us", "td", "obj"]
 PAIRS_Q = [("f8", "str"), ("str", "D"), ("i8", "f8"), ("D", "obj")]
 PAIRS_T = PAIRS_Q + [("U", "us"), ("b1", "str"), ("f8", "f8"), ("str", "str")]
 
